@@ -69,3 +69,87 @@ Proof.
   specialize (Hmax k (Some uk)). unfold l in Hmax. rewrite nth_error_pinned, Huk, Hk in Hmax.
   specialize (Hmax eq_refl). cbn in Hmax. apply Qltb_false in Hmax. lra.
 Qed.
+
+(* ------------------------------------------------------------------ the sampler (exponential race) *)
+Lemma nth_error_race p q j :
+  nth_error (map (fun '(pi, qi) => Some (pi / qi)) (combine p q)) j =
+  match nth_error p j, nth_error q j with
+  | Some a, Some b => Some (Some (a / b))
+  | _, _ => None
+  end.
+Proof.
+  revert q j; induction p as [|a p IH]; intros [|b q] [|j]; cbn; auto.
+  destruct (nth_error p j); auto.
+Qed.
+
+(* whatever the positive draws, the sampled index has positive probability *)
+Lemma multinomial_positive_lemma p q k pk :
+  length p = length q -> (forall x, In x q -> 0 < x) ->
+  nth_error p k = Some pk -> 0 < pk ->
+  exists pr, nth_error p (multinomial_exp p q) = Some pr /\ 0 < pr.
+Proof.
+  intros Hlen Hq Hk Hpk. unfold multinomial_exp.
+  set (l := map _ _). set (a := argmax_first l).
+  destruct (same_length_nth q p k pk (eq_sym Hlen) Hk) as [qk Hqk].
+  assert (Hne : l <> []).
+  { intro E. pose proof (nth_error_race p q k) as H. fold l in H. rewrite E, Hk, Hqk in H. destruct k; discriminate. }
+  destruct (argmax_first_spec _ Hne) as (rv & Hr & Hmax & _). fold a in Hr.
+  unfold l in Hr. rewrite nth_error_race in Hr.
+  destruct (nth_error p a) as [pa|] eqn:Hpa; [|discriminate].
+  destruct (nth_error q a) as [qa|] eqn:Hqa; [|discriminate]. injection Hr as <-.
+  exists pa. split; auto.
+  specialize (Hmax k (Some (pk / qk))). unfold l in Hmax. rewrite nth_error_race, Hk, Hqk in Hmax.
+  specialize (Hmax eq_refl). cbn in Hmax. apply Qltb_false in Hmax.
+  assert (Hqk0 : 0 < qk) by (apply Hq; eapply nth_error_In; eauto).
+  assert (Hqa0 : 0 < qa) by (apply Hq; eapply nth_error_In; eauto).
+  assert (Hpos : 0 < pk / qk) by (apply Qlt_shift_div_l; auto; lra).
+  destruct (Qlt_le_dec 0 pa) as [|Hle]; auto. exfalso.
+  assert (pa / qa <= 0) by (apply Qle_shift_div_r; auto; lra). lra.
+Qed.
+
+Lemma nth_error_weights (sup : list nat) : forall (w : list Q) s j,
+  nth_error (map (fun '(x, i) => if existsb (Nat.eqb i) sup then x else 0) (combine w (seq s (length w)))) j =
+  match nth_error w j with
+  | Some x => Some (if existsb (Nat.eqb (s + j)%nat) sup then x else 0)
+  | None => None
+  end.
+Proof.
+  induction w as [|x w IH]; intros s j; cbn [length seq combine map].
+  - destruct j; reflexivity.
+  - destruct j as [|j]; cbn [nth_error].
+    + rewrite Nat.add_0_r. reflexivity.
+    + rewrite IH. replace (Datatypes.S s + j)%nat with (s + Datatypes.S j)%nat by lia. reflexivity.
+Qed.
+
+Lemma existsb_eqb_In i (sup : list nat) : existsb (Nat.eqb i) sup = true <-> In i sup.
+Proof.
+  rewrite existsb_exists. split.
+  - intros (x & Hx & E). apply Nat.eqb_eq in E. subst. exact Hx.
+  - intro H. exists i. split; auto. apply Nat.eqb_refl.
+Qed.
+
+(* the masked head samples a legal action whatever the exponential draws are, as soon as one index of the
+   support (which is legal) carries positive weight *)
+Lemma sample_masked_legal_lemma l legal weights q k xk wk :
+  length weights = length q -> (forall x, In x q -> 0 < x) ->
+  nth_error legal k = Some true -> nth_error l k = Some xk -> NEG + UNDERFLOW <= xk ->
+  In k (masked_support l legal) -> nth_error weights k = Some wk -> 0 < wk ->
+  nth_error legal (sample_masked l legal weights q) = Some true.
+Proof.
+  intros Hlen Hq Hk Hxk Hlow Hin Hwk Hpos. unfold sample_masked.
+  set (sup := masked_support l legal) in *.
+  set (p := map _ _).
+  assert (Hp : forall j, nth_error p j = match nth_error weights j with
+            | Some x => Some (if existsb (Nat.eqb j) sup then x else 0) | None => None end).
+  { intro j. unfold p. rewrite nth_error_weights. reflexivity. }
+  assert (Hlp : length p = length q).
+  { unfold p. rewrite map_length, combine_length, seq_length. lia. }
+  assert (Hpk : nth_error p k = Some wk).
+  { rewrite Hp, Hwk. assert (existsb (Nat.eqb k) sup = true) as -> by (apply existsb_eqb_In; auto). reflexivity. }
+  destruct (multinomial_positive_lemma p q k wk Hlp Hq Hpk Hpos) as (pr & Hr & Hr0).
+  set (r := multinomial_exp p q) in *.
+  rewrite Hp in Hr. destruct (nth_error weights r) as [wr|]; [|discriminate].
+  destruct (existsb (Nat.eqb r) sup) eqn:E.
+  - apply existsb_eqb_In in E. exact (masked_support_legal_lemma l legal k xk Hk Hxk Hlow r E).
+  - injection Hr as <-. lra.
+Qed.
